@@ -6,6 +6,9 @@ R3  both emitters merge the three stores, in order, one line per cookie.
 R4  cookie attributes: parameter -> morsel key wiring and presence guards.
 R5  URI-bearing helpers are URI-encoded.
 R6  the header-property factory.
+R16 every plain-header writer stores str(value) (= C05 R12, shared).
+R17 a failed jar store (illegal cookie name) is not swallowed.
+R18 the ETag formatter leaves ready entity-tags alone (= C09 R4, shared).
 """
 
 from __future__ import annotations
@@ -1513,6 +1516,52 @@ def r15_disposition_text(run):
         raise AnchorError("%s: no filename*=UTF-8''<value-encoded> rendering found" % g.qual)
 
 
+# ---------------------------------------------------------------------------
+# R17: a failed jar store is not swallowed
+# ---------------------------------------------------------------------------
+
+def r17_cookie_store_failure(run):
+    """One Set-Cookie line per cookie written.  The jar store ``<jar>[name] = value`` is where http.cookies validates the
+    cookie NAME (BaseCookie raises CookieError for an illegal or reserved key; the code documents it by catching it).  When
+    that store fails the cookie is not in the jar, so the call must not complete normally: from every handler that can
+    receive an exception of the jar store, every path leaves the function by raising (or passes a jar store again).
+    W (auto-mutation seed sa-am02224): ``raise KeyError(str(e))`` -> ``pass``: set_cookie('bad name', 'v', secure=False,
+    http_only=False) returns normally and no Set-Cookie line is emitted; with any attribute requested a KeyError surfaces
+    only by accident from ``jar[name][attr]``."""
+    p = run.project
+    _require_stores(p)
+    n = 0
+    for cq, mname in ((RESPONSE, 'set_cookie'), (ASGI_RESPONSE, 'set_cookie'), (RESPONSE, 'unset_cookie'), (ASGI_RESPONSE, 'unset_cookie')):
+        f = p.lookup_method(cq, mname)
+        if f is None:
+            raise AnchorError('%s.%s not found' % (cq, mname))
+        if cq == ASGI_RESPONSE and f is p.lookup_method(RESPONSE, mname):
+            continue
+        cfg = cfg_of(f, p)
+        run.use_cfg(cfg)
+        _attrs, values = _morsel_stores(p, f, cfg, 'name')
+        if not values:
+            raise AnchorError('%s: the cookie value is never stored' % f.qual)
+        vids = [nd.id for (nd, _v, _s) in values]
+        for (nd, _v, stmt) in values:
+            handlers = sorted({y for (y, l) in cfg.succ[nd.id] if l == 'exc' and cfg.node(y).kind == 'handler'})
+            if not handlers:
+                n += 1
+                run.ok('%s: a failure of the jar store propagates (no handler around it)' % f.name, f.loc(stmt), stmt)
+                continue
+            for h in handlers:
+                n += 1
+                path = flow.find_path(cfg, [h], [cfg.exit], avoid_nodes=vids, edge_filter=flow.no_exc)
+                hn = cfg.node(h)
+                run.check(path is None, '%s: when the jar store fails (illegal or reserved cookie name) the call does not complete normally: '
+                                        'every path from the handler raises' % f.name, f, hn.ast, where='%s:%s' % (f.file, hn.lineno),
+                          witness=flow.describe_path(cfg, path) if path else None,
+                          runtime_witness="resp.%s('bad name', ...%s) returns normally and no Set-Cookie line is emitted for it"
+                                          % (f.name, ', secure=False, http_only=False' if f.name == 'set_cookie' else ''))
+    if n == 0:
+        raise AnchorError('no jar store found in set_cookie/unset_cookie')
+
+
 def check(run):
     run.assume('receivers: `self` inside Response classes, parameters annotated Response, and the conventional name `resp` denote a response (A.6)')
     run.assume('http.cookies.Morsel semantics are library behaviour: keys are the RFC 6265 attribute names, OutputString() renders one cookie')
@@ -1540,3 +1589,13 @@ def check(run):
     run.rule('R7', _c10._safe(_c10.r5_check_escaped), 'check-escaped encoder behind the URI-bearing helpers (shared with C10 R5)', floor=8)
     run.rule('R8', _c10._safe(_c10.r2_escape_shape), 'escape shape and decoder table behind the URI-bearing helpers (shared with C10 R2)', floor=10)
     run.rule('R15', r15_disposition_text, 'the download name rendered in Content-Disposition is the assigned value itself, not a narrowed copy', floor=2)
+    # tabled normalisation of the plain-header writers (set_header, append_header, set_headers; the property factory's str() is R6):
+    # whatever the caller passed goes through str() before it reaches the header store, so that a header reads back as the str
+    # the map model holds and the header list handed to the server contains str values only (the rule is C05's R12, shared)
+    from . import c05 as _c05
+
+    run.rule('R16', _c05.r12_native_header_values, 'every plain-header writer stores str(value): set_header, append_header and set_headers agree '
+                                                   '(shared with C05 R12)', floor=4)
+    run.rule('R17', r17_cookie_store_failure, 'a failed jar store (illegal cookie name) is never swallowed: every path from its handler raises', floor=2)
+    run.rule('R18', _c09.r4_writer_reader, 'the typed ETag property leaves a ready entity-tag (strong or weak) unchanged: the quote-wrapping branch '
+                                           'tests the LAST character (shared with C09 R4)', floor=6)
